@@ -452,3 +452,30 @@ def shrink_lines(harness, line, still_fails, budget=80):
             else:
                 break
     return best
+
+
+def find_leaking_lines(harness, lines, budget=24):
+    """LeakSanitizer reports at process exit: bisect a batch of case lines down to a smallest sub-batch (usually one
+    line) whose processing still makes the sanitizers report at exit.  Returns (lines, stderr) or (None, "")."""
+    def leaks(ls):
+        out, crashes = pc.run_harness_resilient(harness, ls)
+        bad = [k for k, o in enumerate(out) if o is not None and o.startswith("CRASH-AT-EXIT")]
+        return (True, crashes.get(bad[0], "")) if bad else (False, "")
+    cur = list(lines)
+    ok, err = leaks(cur)
+    if not ok:
+        return None, ""
+    while len(cur) > 1 and budget > 0:
+        half = len(cur) // 2
+        budget -= 1
+        ok1, e1 = leaks(cur[:half])
+        if ok1:
+            cur, err = cur[:half], e1
+            continue
+        budget -= 1
+        ok2, e2 = leaks(cur[half:])
+        if ok2:
+            cur, err = cur[half:], e2
+            continue
+        break                      # only the combination leaks: keep the current batch
+    return cur, err
